@@ -44,10 +44,12 @@ AK == "AK"
 \* [k |-> "K", key]    a key or passphrase recipient of the key's type
 \* [k |-> "G"]         a custom recipient producing a stanza of an unknown type
 \* [k |-> "L", labels] a custom recipient declaring labels (a sequence, or "absent")
+\* [k |-> "Z", labels] a custom recipient declaring labels and contributing NO stanza (Wrap may return an empty list)
 \* [k |-> "F"]         a recipient whose Wrap fails
 KeyRecip(k) == [k |-> "K", key |-> k, labels |-> Absent]
 Grease == [k |-> "G", key |-> "-", labels |-> Absent]
 Labelled(ls) == [k |-> "L", key |-> "-", labels |-> ls]
+NoStanza(ls) == [k |-> "Z", key |-> "-", labels |-> ls]
 Failing == [k |-> "F", key |-> "-", labels |-> Absent]
 
 StanzaFor(r, fk) ==
@@ -63,8 +65,8 @@ LabelSet(r, i) == IF r.k = "K" /\ KType(r.key) = "scrypt" THEN {"random#" \o ToS
 \* A recipient that repeats a label: if its SET equals another recipient's set while the lists differ only by the
 \* repetition, the property text (sets) and a list reading disagree; such lists are marked and no verdict is taken on them.
 LabelBag(r) == [l \in {"a", "b", "c"} |-> IF ~r.labels.present THEN 0 ELSE Cardinality({j \in 1..Len(r.labels.ls) : r.labels.ls[j] = l})]
-Ambiguous(rs) == \E i \in 1..Len(rs) : rs[i].k \in {"L"} /\ LabelSet(rs[i], i) = LabelSet(rs[1], 1) /\ LabelBag(rs[i]) # LabelBag(rs[1])
-                                          /\ rs[1].k \in {"L", "K"}
+Ambiguous(rs) == \E i \in 1..Len(rs) : rs[i].k \in {"L", "Z"} /\ LabelSet(rs[i], i) = LabelSet(rs[1], 1) /\ LabelBag(rs[i]) # LabelBag(rs[1])
+                                          /\ rs[1].k \in {"L", "K", "Z"}
 
 \* Encrypt(rs): [ok, why, stanzas, written]   written = bytes handed to dst before returning (0 on every refusal)
 Encrypt(rs) ==
@@ -73,7 +75,9 @@ Encrypt(rs) ==
        THEN [ok |-> FALSE, why |-> "wrapfailed", stanzas |-> <<>>, written |-> 0]
   ELSE IF \E i \in 1..Len(rs) : LabelSet(rs[i], i) # LabelSet(rs[1], 1)
        THEN [ok |-> FALSE, why |-> "incompatible", stanzas |-> <<>>, written |-> 0]
-  ELSE [ok |-> TRUE, why |-> "", stanzas |-> [i \in 1..Len(rs) |-> StanzaFor(rs[i], FK)], written |-> 1]
+  \* (a recipient without stanzas takes part in the label comparison like any other and leaves nothing in the header)
+  ELSE [ok |-> TRUE, why |-> "", written |-> 1,
+        stanzas |-> LET idx == SelectSeq([i \in 1..Len(rs) |-> i], LAMBDA i : rs[i].k # "Z") IN [j \in 1..Len(idx) |-> StanzaFor(rs[idx[j]], FK)]]
 HonestHeader(rs) == LET ss == Encrypt(rs).stanzas IN [stanzas |-> ss, mac |-> [k |-> FK, over |-> ss]]
 
 \* ---------------------------------------------------------------- identities
@@ -152,6 +156,7 @@ vars == <<rs, ids, hdr, edit, res>>
 
 RecipUniverse ==
   CASE Mode = "labels" -> {Labelled(ls) : ls \in LabelSets} \cup {Failing, KeyRecip(CHOOSE k \in Keys : KType(k) = "X25519")}
+                          \cup {NoStanza(Absent), NoStanza(Lbl(<<"a">>)), NoStanza(Lbl(<<"b", "a">>))}
     [] OTHER -> {KeyRecip(k) : k \in Keys} \cup {Grease}
 RecipLists == UNION {[1..n -> RecipUniverse] : n \in 1..MaxRecips}
 IdLists == UNION {[1..n -> Keys] : n \in 1..MaxIds}
